@@ -216,6 +216,19 @@ bool World::op_net(std::string const& ctx, toks const& op)
 			{ api_scope2 g(*this); s.async_wait(ip::tcp::socket::wait_read, make_h(op.at(1))); }
 			res("-");
 		}
+		else if (m == "send")
+		{
+			// boost::asio::async_write (composed: async_write_some until everything is written)
+			std::string h = op.at(1);
+			auto data = std::make_shared<std::vector<std::uint8_t>>(unhex(kv(op, "data", "-")));
+			{
+				api_scope2 g(*this);
+				boost::asio::async_write(s, boost::asio::buffer(data->data(), data->size())
+					, [this, h, data](error_code const& e, std::size_t n)
+				{ on_handler(h, e, "n=" + std::to_string(n)); });
+			}
+			res("-");
+		}
 		else if (m == "read_loop") { read_loop(name, op.at(1), std::size_t(kvi(op, "cap", 4096))); res("-"); }
 		else if (m == "write_loop")
 		{
